@@ -211,6 +211,17 @@ func runPropertyIn(prog *Program, prop, tier, only, dir string) *CheckOutcome {
 	}
 	os.RemoveAll(dir)
 	solveAll(out.Obls, dir, timeoutFor(tier), tier == "thorough", 6)
+	// second chance for obligations that ran out of time (machine load): fewer at a time, 4x the budget.
+	// Definite answers (sat/unsat) are never retried.
+	var again []*Obl
+	for _, o := range out.Obls {
+		if o.Expect != "sat" && o.Result != nil && (o.Result.Status == "timeout" || o.Result.Status == "unknown") {
+			again = append(again, o)
+		}
+	}
+	if len(again) > 0 && len(again) <= 12 {
+		solveAll(again, filepath.Join(dir, "retry"), 4*timeoutFor(tier), false, 2)
+	}
 	return out
 }
 
@@ -515,7 +526,7 @@ func (e *Enc) frameObligations(fr *Frame, c *FuncContract, rst *State, guard T) 
 	}
 	sort.Strings(keys)
 	for _, k := range keys {
-		if k == "!top" || strings.HasPrefix(k, "G|") && e.isConstGlobal(k) {
+		if strings.HasPrefix(k, "!") || strings.HasPrefix(k, "G|") && e.isConstGlobal(k) {
 			continue
 		}
 		final := rst.H[k]
